@@ -34,7 +34,7 @@ def tie_applicable(p, exact):
 
 def gen_one(r, i, tier):
     dyadic = True
-    g = gen.G(r, dyadic=dyadic, max_depth=3 if tier == "quick" else 4)
+    g = gen.G(r, dyadic=dyadic, max_depth=3 if tier == "quick" else 4, vecbags=False)
     spec = g.spec(kind=r.choice(gen.NODES + gen.LEAVES))
     c17.decorate(r, spec, "dict")
     try:
